@@ -96,6 +96,11 @@ func main() {
 			{"rsa-mismatched", keys.RSA(0), keys.RSA(1), keys.RSAEncPEM(1), false},
 			// the private-key file holds a key of a type age does not support at all (ECDSA); "stored" is a stand-in
 			{"ed25519-declared-ecdsa-stored", keys.Ed(0), keys.Ed(1), keys.ECDSAEncPEM(), false},
+			// an RSA key too small for age: it can never belong to the declared key ("stored" is a stand-in)
+			{"rsa-declared-small-rsa-stored", keys.RSA(0), keys.RSA(1), keys.RSASmallEncPEM(), false},
+			// an OpenSSH file with private half = seed of Ed(1), public half = public key of Ed(0): it passes the comparison
+			// with the declared key, so it is remembered (it opens nothing); files to Ed(1) must stay closed to it
+			{"ed25519-forged-halves", keys.Ed(0), keys.Ed(1), keys.EdForgedEncPEM(), true},
 		}
 		wrap := func(k *keys.Key, fk []byte) *age.Stanza {
 			s, err := k.Rcpt.Wrap(fk)
